@@ -9,8 +9,9 @@ one scalar; `OracleLaws` states what is assumed (never as an axiom: always as a 
 namespace J5V.Codec
 open J5V.Json
 
-def finite64 (b : Nat) : Bool := b < 2 ^ 64 && (b / 2 ^ 52) % 2048 != 2047
-def finite32 (b : Nat) : Bool := b < 2 ^ 32 && (b / 2 ^ 23) % 256 != 255
+/-- exponent field not all ones (the bit pattern is `< 2 ^ 64` by type in Go) -/
+def finite64 (b : Nat) : Bool := (b / 2 ^ 52) % 2048 != 2047
+def finite32 (b : Nat) : Bool := (b / 2 ^ 23) % 256 != 255
 
 /-- seconds of 0001-01-01T00:00:00Z and 9999-12-31T23:59:59Z -/
 def tsMin : Int := -62135596800
